@@ -1,4 +1,40 @@
-(* C02 — placeholder until lemmas/ParserProps.v lands *)
-From PT Require Import Newick.
-Theorem C02_placeholder : True. Proof. exact I. Qed.
-Print Assumptions C02_placeholder.
+(* C02 — the Newick parser is total and only ever returns well-formed trees.
+   Statements only; proofs are in lemmas/ParserProps.v.  Model: Newick.v (from_newick), for an arbitrary
+   length type L and an arbitrary length parser parse_len (Rust's str::parse::<f64>). *)
+From PT Require Import Arena Spec Newick ParserProps.
+
+(* every input: never a panic, never out of fuel (the model parser is a structural fold: it terminates) *)
+Theorem C02_parse_total : forall (L : Type) (parse_len : str -> option L) (s : str),
+  match from_newick parse_len s with Ok _ | Err _ => True | _ => False end.
+Proof. exact parse_total. Qed.
+Print Assumptions C02_parse_total.
+
+(* a returned tree is one rooted tree containing all of its nodes (WF), non-empty, without removed slots *)
+Theorem C02_parse_wf : forall (L : Type) (parse_len : str -> option L) (s : str) (t : @arena L),
+  from_newick parse_len s = Ok t ->
+  WF t /\ t <> [] /\ (forall (i : nat) (n : node), nth_error t i = Some n -> ndeleted n = false).
+Proof. exact parse_wf. Qed.
+Print Assumptions C02_parse_wf.
+
+(* node ids are the pre-order numbering 0..n-1 of that tree, rooted at slot 0, cached depths exact, lengths mirrored *)
+Theorem C02_parse_preorder : forall (L : Type) (parse_len : str -> option L) (s : str) (t : @arena L),
+  from_newick parse_len s = Ok t -> exists r : rtree, Rep t None 0 0 r /\ ids r = seq 0 (length t).
+Proof. exact parse_preorder. Qed.
+Print Assumptions C02_parse_preorder.
+
+(* text with no terminating semicolon is rejected *)
+Theorem C02_needs_semicolon : forall (L : Type) (parse_len : str -> option L) (s : str) (t : @arena L),
+  from_newick parse_len s = Ok t -> In ch_semi (skeleton s).
+Proof. exact parse_semicolon_delim. Qed.
+Print Assumptions C02_needs_semicolon.
+
+(* text with unbalanced parentheses is rejected (skeleton: the delimiters outside quotes and comments, as an
+   independent scanner that tracks only the quote flag and the current field) *)
+Theorem C02_balanced : forall (L : Type) (parse_len : str -> option L) (s : str) (t : @arena L),
+  from_newick parse_len s = Ok t -> balanced (skeleton s) = true.
+Proof. exact parse_balanced. Qed.
+Print Assumptions C02_balanced.
+
+(* C02_normal_form_partial: "the written form parses back to an equal tree and is written identically again" is the
+   round-trip theorem of C01 applied to parser outputs; it is not yet a theorem here and is evaluated on every
+   case by the correspondence check (a test). *)
